@@ -39,6 +39,11 @@ type Thread struct {
 	gid    int64
 	steps  int
 	done   atomic.Bool // set by the thread itself when it reaches a terminal site / returns
+
+	// progress bookkeeping for busy-waiting threads (see Run)
+	ownEvents int
+	seenSeq   int
+	ownSeen   int
 }
 
 // Done reports (safely from any goroutine) whether the thread has ended.
@@ -115,6 +120,9 @@ type Sched struct {
 	// the default choice 0 never spins on them while anything else can run.
 	IdleSites map[string]bool
 	timer     *time.Timer
+
+	lastStepped *Thread // the thread that made progress most recently
+	progressSeq int     // number of events applied so far
 }
 
 // New creates a scheduler driven by choices. Choice semantics: at each
@@ -277,6 +285,10 @@ func (s *Sched) WaitAdopted(n int, timeout time.Duration) bool {
 }
 
 func (s *Sched) apply(e event) {
+	// any event is progress made by e.t: busy-waiting threads may look again
+	s.lastStepped = e.t
+	s.progressSeq++
+	e.t.ownEvents++
 	switch e.kind {
 	case evYield:
 		e.t.state = stParked
@@ -311,7 +323,6 @@ func (s *Sched) Run() Result {
 	s.timer = time.NewTimer(time.Hour)
 	defer s.timer.Stop()
 	var cur *Thread
-	var lastStepped *Thread
 	waited := 0
 	steps := 0
 	spinOnly := 0
@@ -346,7 +357,10 @@ func (s *Sched) Run() Result {
 			if t.try != nil && !t.try() {
 				continue // still blocked on its lock
 			}
-			if t.spin && lastStepped == t {
+			if t.spin && (s.progressSeq-t.seenSeq) <= (t.ownEvents-t.ownSeen) {
+				// no event of any OTHER thread has been applied since t was last
+				// resumed (events applied after that may not have been seen by t,
+				// so they count as news)
 				// a busy-waiting thread can only see a change after some other
 				// thread has made a step (or while a thread runs outside our control)
 				spinWaiting++
@@ -363,7 +377,7 @@ func (s *Sched) Run() Result {
 		if len(runnable) == 0 && spinWaiting > 0 && detached > 0 {
 			// busy-waiters may be waiting for a thread that runs outside our control
 			time.Sleep(20 * time.Microsecond)
-			lastStepped = nil
+			s.progressSeq++ // a thread outside our control may have moved on
 			if waited++; waited < 200000 {
 				continue
 			}
@@ -429,12 +443,13 @@ func (s *Sched) Run() Result {
 			s.switches++
 		}
 		cur = t
-		lastStepped = t
+		s.lastStepped = t
 		steps++
 		t.steps++
 		s.trace = append(s.trace, Step{T: t.ID, Site: t.site})
 		t.state = stRunning
 		t.try = nil
+		t.seenSeq, t.ownSeen = s.progressSeq, t.ownEvents
 		t.resume <- struct{}{}
 		// wait for t to reach its next hook or finish
 		s.waitFor(t)
